@@ -683,4 +683,52 @@ def wseq (prog : List Nat) : List (List Nat) := prog.map List.range
 
 end Workers
 
+
+/-! ### class construction: what loading one dialect may do to the tables of the others
+
+  Class-level tables (VALID_INTERVAL_UNITS, TIME_MAPPING and its tries, escape tables, keyword tries, TRANSFORMS, …)
+  are objects on a heap; a class attribute is a binding to an object, and a class that does not override an attribute
+  is bound to the SAME object as its base. The metaclass (`_Dialect.__new__`, `Tokenizer.__init_subclass__`) is a
+  function from (inherited tables, class body) to new tables, applied when the class is created — i.e. at the lazy first
+  load of its module, possibly while other threads are working with other dialects. Each derived attribute is either
+  REBOUND (a new object is allocated, filled from the inherited content plus the class's own entries, and the attribute
+  of the NEW class is pointed at it) or updated IN PLACE (the object the attribute currently points at — the inherited
+  one — is mutated). -/
+namespace ClassTables
+
+-- objects, classes and attributes are numbered (plain `Nat`s: `omega` does not look through abbreviations)
+structure Store where
+  heap : Nat → List Nat          -- object ↦ content of that table object
+  bind : Nat → Nat → Nat         -- class ↦ attribute ↦ the object `Class.ATTR` evaluates to (inheritance resolved)
+  next : Nat                     -- allocation pointer: every object ≥ next is unallocated
+
+inductive Upd
+  | rebind (a : Nat) (extra : List Nat)   -- klass.A = {*klass.A, *extra}
+  | mutate (a : Nat) (extra : List Nat)   -- klass.A |= extra / klass.A.update(extra) / klass.A.pop(..)
+  deriving Repr, Inhabited
+
+def Upd.isRebind : Upd → Bool
+  | .rebind _ _ => true
+  | .mutate _ _ => false
+
+/-- the class statement: `y` starts with the bindings of its base `b` -/
+def inherit (s : Store) (y b : Nat) : Store :=
+  { s with bind := fun c a => if c = y then s.bind b a else s.bind c a }
+
+def applyUpd (y : Nat) (s : Store) : Upd → Store
+  | .rebind a extra =>
+    { heap := fun o => if o = s.next then s.heap (s.bind y a) ++ extra else s.heap o,
+      bind := fun c a' => if c = y ∧ a' = a then s.next else s.bind c a',
+      next := s.next + 1 }
+  | .mutate a extra =>
+    { s with heap := fun o => if o = s.bind y a then s.heap o ++ extra else s.heap o }
+
+/-- create class `y` with base `b`; the metaclass then performs the updates `us` -/
+def construct (s : Store) (y b : Nat) (us : List Upd) : Store := us.foldl (applyUpd y) (inherit s y b)
+
+/-- every binding points at an allocated object -/
+def WF (s : Store) : Prop := ∀ c a, s.bind c a < s.next
+
+end ClassTables
+
 end SqlglotModel.Threads
